@@ -1,4 +1,6 @@
 import DinoProofs.Lemmas.BalanceSW
+import DinoProofs.Lemmas.BalanceCol
+import DinoProofs.Lemmas.BalanceZonal
 import Mathlib.Algebra.Algebra.Prod
 import Mathlib.Tactic.NormNum
 
@@ -203,11 +205,148 @@ theorem rest_steady_cloud [BEq K] (L : LinLaws eq.ops) (C : ConstLaws eq.ops)
   rest_steady_moistWith eq L C n hn hb hlc T0 c q0 hR hRT hT hclip hrt tr htr hq
     (MoistPrimitiveEquations.virtualTemperatureWithClouds eq)
     (fun G mc h => virtualTemperatureWithClouds_rest eq n G _ (ql.map eq.ops.toNodal)
-      (qi.map eq.ops.toNodal) (by rw [lookup_mapTracers, hql]; rfl) (by rw [lookup_mapTracers, hqi]; rfl)
+      (qi.map eq.ops.toNodal) (by rw [Balance.lookup_mapTracers, hql]; rfl) (by rw [Balance.lookup_mapTracers, hqi]; rfl)
       (by simpa using lookup_length _ tr n htr ql hql) (by simpa using lookup_length _ tr n htr qi hqi)
       mc h) t
 
 end T51moist
+
+/-! ## T5.2 — the column identities behind "the documented vertical finite differences" -/
+section T52
+variable {K M N : Type} [Field K] [AddCommGroup M] [Module K M] [CommRing N] [Algebra K N]
+
+/-- **T5.2 (σ̇ on all boundaries).**  For every state and every level set whose thicknesses sum to one
+ (`thickness_sum_one`: boundaries from 0 to 1), the two vertical velocities of
+ `compute_diagnostic_state`, placed between the two zeros that `centered_vertical_advection` assumes,
+ are the continuous formula `σ̇(σ) = σ·F(1) − F(σ)`, `F(σ) = ∫₀^σ G dσ`, at **every** one of the `n + 1`
+ boundaries: `G = δ + u·∇ln pₛ` for `sigma_dot_full`, `G = u·∇ln pₛ` for `sigma_dot_explicit`.  In
+ particular σ̇ vanishes at `σ = 0` and at `σ = 1` (`sigmaDotAt_zero`, `sigmaDotAt_bottom`). -/
+theorem sigma_dot_all_boundaries (h : HOps K M N) (v : Vert K) (s : State M) (n : ℕ) (hn : 0 < n)
+    (hds : v.ds.length = n) (hz : s.vorticity.length = n) (hd : s.divergence.length = n)
+    (h1 : v.ds.sum = 1) :
+    let aux := computeDiagnosticState h v s
+    (0 : N) :: (aux.sigmaDotFull ++ [0])
+        = (List.range (n + 1)).map (sigmaDotAt v.ds (Col.add aux.divergence aux.uDotGradLogSp))
+      ∧ (0 : N) :: (aux.sigmaDotExplicit ++ [0])
+        = (List.range (n + 1)).map (sigmaDotAt v.ds aux.uDotGradLogSp)
+      ∧ sigmaDotAt v.ds (Col.add aux.divergence aux.uDotGradLogSp) 0 = 0
+      ∧ sigmaDotAt v.ds (Col.add aux.divergence aux.uDotGradLogSp) n = 0 := by
+  intro aux
+  have hdiv : aux.divergence.length = n := by simp [aux, computeDiagnosticState, hd]
+  have hudg : aux.uDotGradLogSp.length = n := by simp [aux, computeDiagnosticState, hz, hd]
+  have hadd : (Col.add aux.divergence aux.uDotGradLogSp).length = n := by simp [Col.add, hdiv, hudg]
+  exact ⟨sigmaDot_padded v.ds _ n hn hds hadd h1, sigmaDot_padded v.ds _ n hn hds hudg h1,
+    sigmaDotAt_zero _ _, sigmaDotAt_bottom v.ds _ n hds hadd h1⟩
+
+variable (eq : PrimitiveEquations K M N)
+
+/-- **T5.2 (surface pressure).**  The total tendency of `ln pₛ` — `−Σ (u·∇ln pₛ) Δσ` from
+ `explicit_terms` plus `−Σ δ Δσ` from `implicit_terms` — is minus the `σ = 1` value of the very
+ cumulative integral `F` that defines `sigma_dot_full`, for every state whose divergence survives the
+ nodal round trip (`clip ∘ to_modal ∘ to_nodal = id` on each level). -/
+theorem surface_pressure_tendency [BEq K] (L : LinLaws eq.ops) (s : State M) (n : ℕ)
+    (hz : s.vorticity.length = n) (hd : s.divergence.length = n)
+    (hrt : ∀ d ∈ s.divergence, eq.ops.clip (eq.ops.toModal (eq.ops.toNodal d)) = d) :
+    let aux := computeDiagnosticState eq.ops eq.vert s
+    (eq.explicitTerms s).logSurfacePressure + (eq.implicitTerms s).logSurfacePressure
+      = eq.ops.clip (eq.ops.toModal (-((Col.cumSigmaIntegral eq.vert.ds
+          (Col.add aux.divergence aux.uDotGradLogSp)).getLastD 0))) := by
+  intro aux
+  have hdiv : aux.divergence = s.divergence.map eq.ops.toNodal := rfl
+  have hudg : aux.uDotGradLogSp.length = n := by simp [aux, computeDiagnosticState, hz, hd]
+  have he : (eq.explicitTerms s).logSurfacePressure
+      = eq.ops.clip (eq.ops.toModal (-(Col.sigmaIntegral eq.vert.ds aux.uDotGradLogSp))) := rfl
+  have hi : (eq.implicitTerms s).logSurfacePressure = -(Col.sigmaIntegral eq.vert.ds s.divergence) := rfl
+  rw [he, hi, ← sigmaIntegral_eq_last, sigmaIntegral_neg_add _ _ _ (by simp [hdiv, hd, hudg]),
+    L.toModal.map_add, L.clip.map_add, add_comm]
+  congr 1
+  rw [hdiv, L.toModal.map_neg, L.clip.map_neg, ← map_sigmaIntegral _ L.toNodal,
+    map_sigmaIntegral _ L.toNodal, map_sigmaIntegral _ L.toModal, map_sigmaIntegral _ L.clip]
+  congr 2
+  rw [List.map_map, List.map_map]
+  symm
+  calc List.map ((eq.ops.clip ∘ eq.ops.toModal) ∘ eq.ops.toNodal) s.divergence
+      = List.map id s.divergence := List.map_congr_left (fun d hd' => by simpa using hrt d hd')
+    _ = s.divergence := List.map_id _
+
+end T52
+
+/-! ## zonal flows (solid-body rotation, zonal jets): steady iff in gradient-wind balance -/
+section Zonal
+variable {K M N : Type} [Field K] [AddCommGroup M] [Module K M] [CommRing N] [Algebra K N]
+variable (eq : PrimitiveEquations K M N)
+
+/-- the implicit half of the divergence tendency: `−∇²(Φ′ + R T_ref ln pₛ)` of every level -/
+def zonalDivImplicit (T' : List M) (lnp : M) : List M :=
+  (Col.add (eq.geopotentialDiff T') (eq.referenceTemperature.map fun t => (eq.phys.R * t) • lnp)).map
+    fun x => -(eq.ops.laplacian x)
+
+/-- **Zonal flows (dry classes).**  For every non-divergent state whose wind is zonal and whose surface
+ pressure, momentum flux and advective fluxes are zonal (`ZonalFlow`, `d_dlon = 0`), any level set, any
+ `T_ref`, any per-level temperatures and tracers: the total tendency of vorticity, temperature, surface
+ pressure and of every tracer is zero, and the divergence tendency of level `k` is
+ `clip(−S(B_k)/a − ∇²(½u_k²) − g∇²h) − ∇²(Φ′_k + R T_ref,k ln pₛ)`,
+ `B_k = to_modal(((ζ_k + f) u_k + R T′_k ∂_θ ln pₛ) sec²θ)` — the residual of the meridional
+ (gradient-wind) balance.  Solid-body rotation `u = U cos θ` with `ln pₛ = π₀ − c sin²θ/2` is the
+ special case in which the residual vanishes (analytically: `U² + 2ΩaU = c R T`; on real grids:
+ `harness/props/C05.py`, probe `solid-body`). -/
+theorem zonal_flow_total [BEq K] (L : LinLaws eq.ops) (n : ℕ) (hn : 0 < n)
+    (hb : eq.vert.boundaries.length = n + 1) (hlc : eq.vert.logCenters.length = n)
+    (hT : eq.referenceTemperature.length = n) (ζ T' : List M) (hζ : ζ.length = n) (hT' : T'.length = n)
+    (lnp : M) (tr : List (String × List M)) (htr : ∀ kv ∈ tr, kv.2.length = n)
+    (Z : ZonalFlow eq.ops ζ lnp)
+    (hzB : ∀ b ∈ zonalB eq ζ (Col.smul eq.phys.R (T'.map eq.ops.toNodal))
+      (eq.ops.toNodal (eq.ops.cosLatGrad false lnp).2), eq.ops.dDlon b = 0)
+    (hzT : ZonalFlux eq ζ (T'.map eq.ops.toNodal))
+    (hztr : ∀ kv ∈ tr, ZonalFlux eq ζ (kv.2.map eq.ops.toNodal)) :
+    State.add (eq.explicitTerms (zonalState ζ T' lnp tr)) (eq.implicitTerms (zonalState ζ T' lnp tr)) =
+      { zeroTendency n tr with
+        divergence := Col.add
+          (List.zipWith (zonalDivExplicit eq)
+            (zonalB eq ζ (Col.smul eq.phys.R (T'.map eq.ops.toNodal))
+              (eq.ops.toNodal (eq.ops.cosLatGrad false lnp).2)) (ζ.map (zonalU eq.ops)))
+          (zonalDivImplicit eq T' lnp) } := by
+  rw [explicitTerms_zonal eq L n hn hb hlc hT ζ T' hζ hT' lnp tr htr Z hzB hzT hztr]
+  have hds : eq.vert.ds.length = n := by simp [Vert.ds, Sigma.thickness, hb]
+  have hz : mapTracers Col.zerosLike tr = mapTracers (fun _ => List.replicate n (0 : M)) tr := by
+    apply mapTracers_congr
+    intro kv hkv
+    rw [← htr kv hkv]; simp [Col.zerosLike]
+  have himp : eq.implicitTerms (zonalState ζ T' lnp tr) =
+      { vorticity := List.replicate n 0
+        divergence := zonalDivImplicit eq T' lnp
+        temperatureVariation := List.replicate n 0
+        logSurfacePressure := 0
+        tracers := mapTracers (fun _ => List.replicate n 0) tr } := by
+    unfold PrimitiveEquations.implicitTerms zonalState zonalDivImplicit
+    simp only [hζ, PrimitiveEquations.temperatureImplicit, PrimitiveEquations.temperatureImplicitWeights,
+      matvec_zeros, sigmaIntegral_zeros eq.vert.ds n hds, neg_zero, zerosLike_eq, hz]
+    simp [Implicit.negMat, Implicit.hMatrix, hds]
+  rw [himp]
+  simp only [State.add, Col.add, List.zipWith_replicate, Nat.min_self, add_zero, zipTracers_const,
+    zeroTendency]
+
+/-- **Zonal flows in gradient-wind balance are steady** (dry classes). -/
+theorem zonal_flow_steady [BEq K] (L : LinLaws eq.ops) (n : ℕ) (hn : 0 < n)
+    (hb : eq.vert.boundaries.length = n + 1) (hlc : eq.vert.logCenters.length = n)
+    (hT : eq.referenceTemperature.length = n) (ζ T' : List M) (hζ : ζ.length = n) (hT' : T'.length = n)
+    (lnp : M) (tr : List (String × List M)) (htr : ∀ kv ∈ tr, kv.2.length = n)
+    (Z : ZonalFlow eq.ops ζ lnp)
+    (hzB : ∀ b ∈ zonalB eq ζ (Col.smul eq.phys.R (T'.map eq.ops.toNodal))
+      (eq.ops.toNodal (eq.ops.cosLatGrad false lnp).2), eq.ops.dDlon b = 0)
+    (hzT : ZonalFlux eq ζ (T'.map eq.ops.toNodal))
+    (hztr : ∀ kv ∈ tr, ZonalFlux eq ζ (kv.2.map eq.ops.toNodal))
+    (hbal : Col.add
+        (List.zipWith (zonalDivExplicit eq)
+          (zonalB eq ζ (Col.smul eq.phys.R (T'.map eq.ops.toNodal))
+            (eq.ops.toNodal (eq.ops.cosLatGrad false lnp).2)) (ζ.map (zonalU eq.ops)))
+        (zonalDivImplicit eq T' lnp) = List.replicate n 0) :
+    State.add (eq.explicitTerms (zonalState ζ T' lnp tr)) (eq.implicitTerms (zonalState ζ T' lnp tr))
+      = zeroTendency n tr := by
+  rw [zonal_flow_total eq L n hn hb hlc hT ζ T' hζ hT' lnp tr htr Z hzB hzT hztr, hbal]
+  rfl
+
+end Zonal
 
 /-! ### non-vacuity: a two-mode (constant + `sin θ`), two-node toy grid over `ℚ` -/
 section example51
@@ -296,6 +435,36 @@ example :
   exact rest_steady_cloud toyEq toyLin toyConst 2 (by decide) hb hlc 250 7 (1 / 100) hR hRT hT hclip hrt
     _ (by simp) rfl [(1, 2), (3, 4)] [(0, 1), (5, 0)] rfl rfl 3
 
+/-- a moving state on the toy grid: two uneven layers, non-zero divergence and pressure gradient -/
+def toyState : State (ℚ × ℚ) :=
+  { vorticity := [(0, 1), (0, 2)], divergence := [(0, 3), (0, -1)]
+    temperatureVariation := [(1, 0), (2, 1)], logSurfacePressure := (1 / 2, 1 / 3) }
+
+theorem toy_ds_sum : toyEq.vert.ds.sum = 1 :=
+  thickness_sum_one toyEq.vert.boundaries (by simp [toyEq]) rfl (by simp [toyEq])
+
+/-- T5.2 (σ̇) applies to the moving state, and its interior vertical velocity is not zero -/
+example :
+    let aux := computeDiagnosticState toyEq.ops toyEq.vert toyState
+    (0 : ℚ × ℚ) :: (aux.sigmaDotFull ++ [0])
+        = (List.range (2 + 1)).map (sigmaDotAt toyEq.vert.ds (Col.add aux.divergence aux.uDotGradLogSp))
+      ∧ aux.sigmaDotFull ≠ [0] := by
+  refine ⟨(sigma_dot_all_boundaries toyEq.ops toyEq.vert toyState 2 (by decide) rfl rfl rfl toy_ds_sum).1, ?_⟩
+  decide +kernel
+
+/-- T5.2 (surface pressure) applies to the moving state (exact round trip on the toy grid), and the
+ tendency is not zero -/
+example :
+    let aux := computeDiagnosticState toyEq.ops toyEq.vert toyState
+    (toyEq.explicitTerms toyState).logSurfacePressure + (toyEq.implicitTerms toyState).logSurfacePressure
+        = toyEq.ops.clip (toyEq.ops.toModal (-((Col.cumSigmaIntegral toyEq.vert.ds
+            (Col.add aux.divergence aux.uDotGradLogSp)).getLastD 0)))
+      ∧ (toyEq.implicitTerms toyState).logSurfacePressure ≠ 0 := by
+  refine ⟨surface_pressure_tendency toyEq toyLin toyState 2 rfl rfl ?_, ?_⟩
+  · intro d _
+    ext <;> simp [toyEq, toyOps] <;> ring
+  · decide +kernel
+
 end example51
 
 end PrimitiveEquationsPart
@@ -353,6 +522,144 @@ theorem one_layer_steady (F : FactoryLaws eq.ops zeroMean) (u : N) (J : ZonalJet
   have h := one_layer_total eq zeroMean F u J (by rw [hr]; exact one_ne_zero) ρ φ hd ho hp
   simp only [hr, hΩ, mul_one, sub_self, zero_smul, add_zero] at h
   exact h
+
+/-- **T5.3 (`multi_layer`, any number of layers, radius and Ω symbolic).**  `multi_layer` solves
+ `(D + I)·Φ = Ψ` (`D = get_density_ratios(density)`, `Ψ` the one-layer potentials of the layers'
+ winds), so the layered pressure `D·Φ` that `explicit_terms` adds to layer `k` plus its own potential
+ `Φ_k` (the implicit half) is `Ψ_k`: every layer of the layered system has the tendency of a one-layer
+ system.  Hypotheses: the contract of `jnp.linalg.solve` (used only for ≥ 2 layers, as in the code),
+ each layer's wind is a resolved zonal jet, the solved potentials are zonal and the layered pressure
+ is resolved (`clip ∇² = ∇²`). -/
+theorem multi_layer_total (F : FactoryLaws eq.ops zeroMean) (us : List N)
+    (hJ : ∀ u ∈ us, ZonalJet eq.ops zeroMean u) (hr : eq.ops.radius ≠ 0)
+    (solve : List (List K) → List M → List M)
+    (hd : eq.specs.densities.length = us.length) (ho : eq.orography = none)
+    (hp : eq.referencePotential.length = us.length)
+    (hsolve : 1 < us.length →
+      (solve (addEye (getDensityRatios eq.specs.densities)) (onePotentials zeroMean eq.ops us)).length
+          = us.length ∧
+        Col.matvec (addEye (getDensityRatios eq.specs.densities))
+            (solve (addEye (getDensityRatios eq.specs.densities)) (onePotentials zeroMean eq.ops us))
+          = onePotentials zeroMean eq.ops us)
+    (hzonal : ∀ (i : ℕ) (hi : i < us.length),
+      eq.ops.dDlon (eq.ops.toModal (us[i] * (1 / eq.ops.cosLat) * eq.ops.toNodal (eq.ops.clip
+        (lv (multiLayer eq.ops zeroMean solve us eq.specs.densities).potential i)))) = 0)
+    (hclip : ∀ p ∈ eq.layeredPressure (multiLayer eq.ops zeroMean solve us eq.specs.densities).potential,
+      eq.ops.clip (eq.ops.laplacian p) = eq.ops.laplacian p) :
+    State.add (eq.explicitTerms (multiLayer eq.ops zeroMean solve us eq.specs.densities))
+        (eq.implicitTerms (multiLayer eq.ops zeroMean solve us eq.specs.densities)) =
+      { vorticity := List.replicate us.length 0
+        divergence := us.map fun u => (1 - eq.ops.radius * eq.ops.radius) • jetX3 eq.ops u
+          + (1 - (1 + 1) * eq.specs.angularVelocity) • jetX2 eq.ops u
+        potential := List.replicate us.length 0 } := by
+  have L := F.lin
+  obtain ⟨hΦlen, hK⟩ := multiLayer_pressure eq zeroMean us solve hd ho hsolve
+  have hv : (multiLayer eq.ops zeroMean solve us eq.specs.densities).vorticity
+      = us.map (jetVorticity eq.ops) := by
+    simp [multiLayer, State.ofLayers, oneLayer_vorticity]
+  have hdv : (multiLayer eq.ops zeroMean solve us eq.specs.densities).divergence
+      = List.replicate us.length (0 : M) := by
+    rw [List.eq_replicate_iff]
+    refine ⟨by simp [multiLayer, State.ofLayers], ?_⟩
+    intro b hb
+    simp only [multiLayer, State.ofLayers, List.map_map, List.mem_map] at hb
+    obtain ⟨u, -, rfl⟩ := hb
+    rfl
+  set s := multiLayer eq.ops zeroMean solve us eq.specs.densities with hs
+  have hPlen : (eq.layeredPressure s.potential).length = us.length := by
+    unfold ShallowWaterEquations.layeredPressure ShallowWaterEquations.densityRatios
+    rw [ho]
+    simp [Col.matvec, getDensityRatios_length, hd]
+  -- every row of `explicit_terms`
+  have hrow : ∀ (i : ℕ) (hi : i < us.length),
+      eq.explicitLayer (jetVorticity eq.ops us[i]) 0 (s.potential[i]'(by rw [hΦlen]; exact hi))
+          ((eq.layeredPressure s.potential)[i]'(by rw [hPlen]; exact hi))
+        = (0, -(eq.ops.laplacian ((eq.layeredPressure s.potential)[i]'(by rw [hPlen]; exact hi)))
+             - (eq.ops.radius * eq.ops.radius) • jetX3 eq.ops us[i] - jetX1 eq.ops us[i]
+             - ((1 + 1) * eq.specs.angularVelocity) • jetX2 eq.ops us[i], 0) := by
+    intro i hi
+    have hz := hzonal i hi
+    have hlv : lv s.potential i = s.potential[i]'(by rw [hΦlen]; exact hi) := by
+      simp [lv_def, List.getElem?_eq_getElem (show i < s.potential.length by rw [hΦlen]; exact hi)]
+    rw [hlv] at hz
+    rw [explicitLayer_jet eq zeroMean F us[i] (hJ _ (List.getElem_mem hi)) hr _ _ hz,
+      L.clip.map_neg, hclip _ (List.getElem_mem _)]
+  -- the balance of layer `i`
+  have hbal : ∀ (i : ℕ) (hi : i < us.length),
+      eq.ops.laplacian ((eq.layeredPressure s.potential)[i]'(by rw [hPlen]; exact hi))
+        + eq.ops.laplacian (s.potential[i]'(by rw [hΦlen]; exact hi))
+        = -(jetX1 eq.ops us[i] + jetX2 eq.ops us[i] + jetX3 eq.ops us[i]) := by
+    intro i hi
+    have h1 : (Col.add (eq.layeredPressure s.potential) s.potential)[i]'(by
+        simp only [Col.add, List.length_zipWith, hPlen, hΦlen, Nat.min_self]; exact hi)
+        = (onePotentials zeroMean eq.ops us)[i]'(by simp [onePotentials_eq]; exact hi) := by
+      simp only [hK]
+    simp only [Col.add, List.getElem_zipWith, onePotentials_eq, List.getElem_map] at h1
+    rw [← L.laplacian.map_add, h1, oneLayer_potential eq.ops zeroMean F]
+  unfold ShallowWaterEquations.explicitTerms ShallowWaterEquations.implicitTerms DynamicsSW.State.add
+  simp only [hv, hdv]
+  congr 1
+  · apply List.ext_getElem
+    · simp [Col.add, Col.zerosLike, hΦlen, hPlen]
+    · intro i h1 h2
+      have hi : i < us.length := by simpa using h2
+      simp only [Col.add, Col.zerosLike, List.getElem_zipWith, List.getElem_map, List.getElem_zip,
+        List.getElem_replicate]
+      rw [hrow i hi, add_zero]
+  · apply List.ext_getElem
+    · simp [Col.add, hΦlen, hPlen]
+    · intro i h1 h2
+      have hi : i < us.length := by simpa using h2
+      simp only [Col.add, List.getElem_zipWith, List.getElem_map, List.getElem_zip,
+        List.getElem_replicate]
+      rw [hrow i hi]
+      have hb := hbal i hi
+      simp only []
+      have e : -(eq.ops.laplacian ((eq.layeredPressure s.potential)[i]'(by rw [hPlen]; exact hi)))
+          = eq.ops.laplacian (s.potential[i]'(by rw [hΦlen]; exact hi))
+            + (jetX1 eq.ops us[i] + jetX2 eq.ops us[i] + jetX3 eq.ops us[i]) := by
+        rw [eq_comm, ← sub_eq_zero]
+        have := hb
+        rw [← sub_eq_zero] at this
+        rw [← this]; abel
+      rw [e]
+      module
+  · apply List.ext_getElem
+    · simp [Col.add, hΦlen, hPlen, hp]
+    · intro i h1 h2
+      have hi : i < us.length := by simpa using h2
+      simp only [Col.add, List.getElem_zipWith, List.getElem_map, List.getElem_zip,
+        List.getElem_replicate]
+      rw [hrow i hi, smul_zero, add_zero]
+
+/-- **T5.3 (`multi_layer`).**  In the factory's units (`grid.radius = 1`, `2Ω = 1`) the state built by
+ `multi_layer` is exactly steady, for every number of layers and every density profile for which the
+ solve succeeds. -/
+theorem multi_layer_steady (F : FactoryLaws eq.ops zeroMean) (us : List N)
+    (hJ : ∀ u ∈ us, ZonalJet eq.ops zeroMean u)
+    (hr : eq.ops.radius = 1) (hΩ : (1 + 1) * eq.specs.angularVelocity = 1)
+    (solve : List (List K) → List M → List M)
+    (hd : eq.specs.densities.length = us.length) (ho : eq.orography = none)
+    (hp : eq.referencePotential.length = us.length)
+    (hsolve : 1 < us.length →
+      (solve (addEye (getDensityRatios eq.specs.densities)) (onePotentials zeroMean eq.ops us)).length
+          = us.length ∧
+        Col.matvec (addEye (getDensityRatios eq.specs.densities))
+            (solve (addEye (getDensityRatios eq.specs.densities)) (onePotentials zeroMean eq.ops us))
+          = onePotentials zeroMean eq.ops us)
+    (hzonal : ∀ (i : ℕ) (hi : i < us.length),
+      eq.ops.dDlon (eq.ops.toModal (us[i] * (1 / eq.ops.cosLat) * eq.ops.toNodal (eq.ops.clip
+        (lv (multiLayer eq.ops zeroMean solve us eq.specs.densities).potential i)))) = 0)
+    (hclip : ∀ p ∈ eq.layeredPressure (multiLayer eq.ops zeroMean solve us eq.specs.densities).potential,
+      eq.ops.clip (eq.ops.laplacian p) = eq.ops.laplacian p) :
+    State.add (eq.explicitTerms (multiLayer eq.ops zeroMean solve us eq.specs.densities))
+        (eq.implicitTerms (multiLayer eq.ops zeroMean solve us eq.specs.densities))
+      = State.zero us.length := by
+  have h := multi_layer_total eq zeroMean F us hJ (by rw [hr]; exact one_ne_zero) solve hd ho hp hsolve
+    hzonal hclip
+  simp only [hr, hΩ, mul_one, sub_self, zero_smul, add_zero] at h
+  rw [h]
+  simp [State.zero, Col.zeros]
 
 end T53
 /-! ### a zonal three-mode toy sphere over `ℚ`: modes `a₀ + a₁ μ + a₂ μ²` (`μ = sin θ`), nodes
@@ -433,6 +740,74 @@ example :
   exact one_layer_steady (toySW 1 (1 / 2)) toyZeroMean (toySW_factory 1 one_ne_zero) toyU
     (toySW_jet 1 one_ne_zero) hr hΩ 1 (1 / 10) rfl rfl rfl
 
+/-! ### non-vacuity of the `multi_layer` theorems: two layers of densities `1, 2` rotating at different
+ rates on the toy sphere; `jnp.linalg.solve` is Cramer's rule for the `2 × 2` system -/
+def toySW2 (r Ω : ℚ) : ShallowWaterEquations ℚ Q3 Q3 :=
+  { ops := toySWOps r
+    specs := { densities := [1, 2], radius := r, angularVelocity := Ω, gravityAcceleration := 1 }
+    orography := none
+    referencePotential := [1 / 10, 1 / 5] }
+
+/-- solid-body rotation at twice the rate, `u = 2 cos θ` -/
+def toyU2 : Q3 := (8 / 5, 2, 8 / 5)
+
+def solve2 : List (List ℚ) → List Q3 → List Q3
+  | [[a, b], [c, d]], [x, y] =>
+    [(d / (a * d - b * c)) • x - (b / (a * d - b * c)) • y,
+     (a / (a * d - b * c)) • y - (c / (a * d - b * c)) • x]
+  | _, _ => []
+
+theorem toySW_jet2 (r : ℚ) (hr : r ≠ 0) : ZonalJet (toySWOps r) toyZeroMean toyU2 where
+  helmholtz := by
+    ext <;> simp [toySWOps, toyU2, jetU, HOps.cosLatVector, HOps.cosLatGrad, HOps.kCross, HOps.curlCosLat]
+      <;> field_simp <;> norm_num
+  zonal_psi := rfl
+  zonal_b1 := rfl
+  zonal_b2 := rfl
+  zonal_g := rfl
+  clip_vorticity := rfl
+  clip_X1 := rfl
+  clip_X2 := rfl
+  clip_X3 := rfl
+
+/-- the density ratios of the example are not trivial: the lower layer feels half of the upper one -/
+example : getDensityRatios (toySW2 1 (1 / 2)).specs.densities = [[0, 1], [1 / 2, 0]] := by
+  decide +kernel
+
+example :
+    State.add ((toySW2 1 (1 / 2)).explicitTerms (multiLayer (toySW2 1 (1 / 2)).ops toyZeroMean solve2
+        [toyU, toyU2] (toySW2 1 (1 / 2)).specs.densities))
+      ((toySW2 1 (1 / 2)).implicitTerms (multiLayer (toySW2 1 (1 / 2)).ops toyZeroMean solve2
+        [toyU, toyU2] (toySW2 1 (1 / 2)).specs.densities)) = State.zero 2 := by
+  have hr : (toySW2 1 (1 / 2)).ops.radius = 1 := rfl
+  have hΩ : (1 + 1) * (toySW2 1 (1 / 2)).specs.angularVelocity = 1 := by norm_num [toySW2]
+  refine multi_layer_steady (toySW2 1 (1 / 2)) toyZeroMean (toySW_factory 1 one_ne_zero) [toyU, toyU2]
+    ?_ hr hΩ solve2 rfl rfl rfl ?_ (fun i hi => rfl) (fun p hp => rfl)
+  · intro u hu
+    simp only [List.mem_cons, List.not_mem_nil, or_false] at hu
+    rcases hu with rfl | rfl
+    · exact toySW_jet 1 one_ne_zero
+    · exact toySW_jet2 1 one_ne_zero
+  · intro _
+    have hA : addEye (getDensityRatios (toySW2 1 (1 / 2)).specs.densities) = [[1, 1], [1 / 2, 1]] := by
+      decide +kernel
+    rw [hA, onePotentials_eq]
+    simp only [List.map_cons, List.map_nil]
+    generalize (oneLayer (toySW2 1 (1 / 2)).ops toyZeroMean toyU).potential = x
+    generalize (oneLayer (toySW2 1 (1 / 2)).ops toyZeroMean toyU2).potential = y
+    refine ⟨rfl, ?_⟩
+    simp only [solve2, Col.matvec, Col.wmul, List.map_cons, List.map_nil, List.zipWith_cons_cons,
+      List.zipWith_nil_right, List.sum_cons, List.sum_nil]
+    have e1 : (1 : ℚ) • ((1 / (1 * 1 - 1 * (1 / 2)) : ℚ) • x - (1 / (1 * 1 - 1 * (1 / 2)) : ℚ) • y)
+        + ((1 : ℚ) • ((1 / (1 * 1 - 1 * (1 / 2)) : ℚ) • y - ((1 / 2) / (1 * 1 - 1 * (1 / 2)) : ℚ) • x) + 0) = x := by
+      norm_num
+      module
+    have e2 : (1 / 2 : ℚ) • ((1 / (1 * 1 - 1 * (1 / 2)) : ℚ) • x - (1 / (1 * 1 - 1 * (1 / 2)) : ℚ) • y)
+        + ((1 : ℚ) • ((1 / (1 * 1 - 1 * (1 / 2)) : ℚ) • y - ((1 / 2) / (1 * 1 - 1 * (1 / 2)) : ℚ) • x) + 0) = y := by
+      norm_num
+      module
+    rw [e1, e2]
+
 /-- **negative witness (radius).**  The same wind on a sphere of radius 2 (with `2Ω = 1`): the state
  built by `one_layer` has the non-zero divergence tendency `(3/4)(1 − 3μ²)`. -/
 theorem one_layer_not_steady_radius :
@@ -463,5 +838,45 @@ theorem one_layer_not_steady_omega :
 
 
 end ShallowWaterPart
+
+/-! ### non-vacuity of the zonal-flow theorems: solid-body rotation on the three-mode toy sphere
+
+Two uneven layers rotating at different rates, `u₀ = cos θ`, `u₁ = 2 cos θ` (vorticities `2μ`, `4μ`),
+horizontally uniform temperatures `T′ = (−16/25, 48/25)` around `T_ref = 3`, `ln pₛ = 1/5 − μ²/2`
+(`c = 1`, `R = 1`, `2Ωa = 1`).  On the sphere the balance is `U² + U = c R (T_ref + T′)`; the toy
+sphere truncates `cos θ ∂_θ` at `μ²`, which weights `T′` by `25/16`: `1 + 1 = 3 − 1`, `4 + 2 = 3 + 3`. -/
+section ZonalExample
+open Dino.Dynamics
+
+def toyPE : PrimitiveEquations ℚ Q3 Q3 :=
+  { ops := toySWOps 1
+    vert := { boundaries := [0, 1 / 3, 1], logCenters := [-2, -1 / 3] }
+    phys := { angularVelocity := 1 / 2, g := 10, R := 1, Rvapor := 2, CpVapor := 18, kappa := 2 / 7 }
+    referenceTemperature := [3, 3]
+    orography := (0, 0, 0) }
+
+def toyZeta : List Q3 := [(0, 2, 0), (0, 4, 0)]
+def toyTv : List Q3 := [(-16 / 25, 0, 0), (48 / 25, 0, 0)]
+def toyLnp : Q3 := (1 / 5, 0, -1 / 2)
+
+/-- the wind of the example is solid-body rotation: `cos θ·u = U cos²θ` on the three nodes -/
+example : toyZeta.map (zonalU toyPE.ops) = [(16 / 25, 1, 16 / 25), (32 / 25, 2, 32 / 25)] := by
+  decide +kernel
+
+/-- the two halves of the divergence tendency are not zero; they cancel -/
+example : zonalDivImplicit toyPE toyTv toyLnp = [((3, 0, -9) : Q3), ((3, 0, -9) : Q3)] := by
+  decide +kernel
+
+example :
+    State.add (toyPE.explicitTerms (zonalState toyZeta toyTv toyLnp [("tracer", [(1, 0, 0), (2, 0, 0)])]))
+        (toyPE.implicitTerms (zonalState toyZeta toyTv toyLnp [("tracer", [(1, 0, 0), (2, 0, 0)])]))
+      = zeroTendency 2 [("tracer", [(1, 0, 0), (2, 0, 0)])] := by
+  refine zonal_flow_steady toyPE (toySW_lin 1) 2 (by decide) rfl rfl rfl toyZeta toyTv rfl rfl toyLnp _
+    (by simp) ⟨?_, ?_⟩ (fun b _ => rfl) (fun a _ => rfl) (fun kv _ a _ => rfl) ?_
+  · decide +kernel
+  · decide +kernel
+  · decide +kernel
+
+end ZonalExample
 
 end Dino.C05
